@@ -432,9 +432,10 @@ func parseResults(out string) map[int]string {
 func (e *Engine) solveAll(want func(*Obligation) bool, quickMs, slowMs int, workers int, scratch string) {
 	e.axiomList = e.axioms()
 	type job struct {
-		lines []Line
-		text  string
-		obs   []*Obligation
+		lines  []Line
+		text   string
+		obs    []*Obligation
+		covers bool
 	}
 	var jobs []*job
 	claimed := map[*Obligation]bool{}
@@ -468,7 +469,8 @@ func (e *Engine) solveAll(want func(*Obligation) bool, quickMs, slowMs int, work
 				defer bwg.Done()
 				for j := range bch {
 					t0 := time.Now()
-					out, _ := runSolver(solvers[0], j.text, quickMs, time.Duration(len(j.batches)*quickMs+5000)*time.Millisecond)
+					bq := quickMs
+					out, _ := runSolver(solvers[0], j.text, bq, time.Duration(len(j.batches)*bq+5000)*time.Millisecond)
 					res := parseBatchResults(out)
 					dt := time.Since(t0).Seconds()
 					n := 0
@@ -497,7 +499,11 @@ func (e *Engine) solveAll(want func(*Obligation) bool, quickMs, slowMs int, work
 			bch <- j
 		}
 		close(bch)
+		tb := time.Now()
 		bwg.Wait()
+		if os.Getenv("GOVC_TIMING") != "" {
+			fmt.Fprintf(os.Stderr, "batch pass: %d path scripts, %.1fs\n", len(bjobs), time.Since(tb).Seconds())
+		}
 	}
 	for _, lines := range e.scripts {
 		for _, covers := range []bool{false, true} {
@@ -514,21 +520,23 @@ func (e *Engine) solveAll(want func(*Obligation) bool, quickMs, slowMs int, work
 			for _, ob := range obs {
 				owner[ob] = lines
 			}
-			jobs = append(jobs, &job{lines: lines, text: text, obs: obs})
+			jobs = append(jobs, &job{lines: lines, text: text, obs: obs, covers: covers})
 		}
 	}
 	var wg sync.WaitGroup
 	ch := make(chan *job)
 	var mu sync.Mutex
 	failedNames := map[string]int{}
+	retrySem := make(chan struct{}, 6)
 	for w := 0; w < workers; w++ {
 		wg.Add(1)
 		go func() {
 			defer wg.Done()
 			for j := range ch {
 				t0 := time.Now()
-				hard := time.Duration(len(j.obs)*quickMs+5000) * time.Millisecond
-				out, _ := runSolver(solvers[0], j.text, quickMs, hard)
+				pq := quickMs * 2 / 5 // per obligation, incremental; what is left goes to fresh processes (retryOne)
+				hard := time.Duration(len(j.obs)*pq+5000) * time.Millisecond
+				out, _ := runSolver(solvers[0], j.text, pq, hard)
 				res := parseResults(out)
 				dt := time.Since(t0).Seconds()
 				var retry []*Obligation
@@ -552,6 +560,8 @@ func (e *Engine) solveAll(want func(*Obligation) bool, quickMs, slowMs int, work
 					}
 				}
 				mu.Unlock()
+				// obligations left over by the incremental run are retried in fresh processes, several at a time
+				var rwg sync.WaitGroup
 				for _, ob := range retry {
 					mu.Lock()
 					already := failedNames[ob.Name]
@@ -563,13 +573,20 @@ func (e *Engine) solveAll(want func(*Obligation) bool, quickMs, slowMs int, work
 						mu.Unlock()
 						continue
 					}
-					e.retryOne(owner[ob], ob, slowMs, scratch, &mu)
-					mu.Lock()
-					if ob.Status != "discharged" && ob.Status != "covered" {
-						failedNames[ob.Name]++
-					}
-					mu.Unlock()
+					rwg.Add(1)
+					go func(ob *Obligation) {
+						defer rwg.Done()
+						retrySem <- struct{}{}
+						defer func() { <-retrySem }()
+						e.retryOne(owner[ob], ob, slowMs, scratch, &mu)
+						mu.Lock()
+						if ob.Status != "discharged" && ob.Status != "covered" {
+							failedNames[ob.Name]++
+						}
+						mu.Unlock()
+					}(ob)
 				}
+				rwg.Wait()
 			}
 		}()
 	}
@@ -579,11 +596,74 @@ func (e *Engine) solveAll(want func(*Obligation) bool, quickMs, slowMs int, work
 			_ = os.WriteFile(filepath.Join(d, fmt.Sprintf("path%03d_%s.smt2", i, safeName(j.obs[0].Fn))), []byte(j.text), 0o644)
 		}
 	}
+	tp := time.Now()
 	for _, j := range jobs {
 		ch <- j
 	}
 	close(ch)
 	wg.Wait()
+	if os.Getenv("GOVC_TIMING") != "" {
+		fmt.Fprintf(os.Stderr, "per-path pass + retries: %d scripts, %.1fs\n", len(jobs), time.Since(tp).Seconds())
+	}
+	// second chance: an obligation that is left undischarged without a genuine counterexample may have lost a race
+	// for CPU time against the other queries; it is tried once more, with the machine to itself and a larger
+	// budget, before it is reported (at most a handful, so that a broken tree does not cost minutes)
+	ts := time.Now()
+	var again []*Obligation
+	seenName := map[string]bool{}
+	for _, j := range jobs {
+		for _, ob := range j.obs {
+			if ob.Expect == "sat" || ob.Goal == "false" || ob.Status == "discharged" || seenName[ob.Name] {
+				continue
+			}
+			if ob.Status == "failed" && !strings.Contains(ob.Solver, "quantifier-free") && !strings.Contains(ob.Solver, "not retried") {
+				continue // a model of the full context: genuine
+			}
+			seenName[ob.Name] = true
+			again = append(again, ob)
+		}
+	}
+	if len(again) > 0 && len(again) <= 6 {
+		var awg sync.WaitGroup
+		sem := make(chan struct{}, 2)
+		for _, ob := range again {
+			awg.Add(1)
+			go func(ob *Obligation) {
+				defer awg.Done()
+				sem <- struct{}{}
+				defer func() { <-sem }()
+				prev := *ob
+				e.retryOne(owner[ob], ob, slowMs*2, scratch, &mu)
+				mu.Lock()
+				if ob.Status != "discharged" {
+					ob.Status, ob.Solver, ob.Model, ob.Values = prev.Status, prev.Solver, prev.Model, prev.Values
+				} else {
+					ob.Solver += " (second attempt)"
+					// the other instances of the same obligation were skipped after this one failed
+					for _, j := range jobs {
+						for _, o2 := range j.obs {
+							if o2.Name == ob.Name && o2 != ob && strings.Contains(o2.Solver, "not retried") {
+								o2.Status = ""
+							}
+						}
+					}
+				}
+				mu.Unlock()
+			}(ob)
+		}
+		awg.Wait()
+		// instances released above
+		for _, j := range jobs {
+			for _, o2 := range j.obs {
+				if o2.Status == "" && o2.Expect != "sat" {
+					e.retryOne(owner[o2], o2, slowMs, scratch, &mu)
+				}
+			}
+		}
+		if os.Getenv("GOVC_TIMING") != "" {
+			fmt.Fprintf(os.Stderr, "second attempts: %d obligations, %.1fs\n", len(again), time.Since(ts).Seconds())
+		}
+	}
 }
 
 func firstError(out string) string {
@@ -619,6 +699,81 @@ func (e *Engine) retryOne(lines []Line, ob *Obligation, slowMs int, scratch stri
 		return
 	}
 	script := e.standalone(lines, ob, true, ob.Expect == "sat")
+	if d := os.Getenv("GOVC_DUMPOB"); d != "" && strings.Contains(ob.Name, d) {
+		_ = os.WriteFile(fmt.Sprintf("/tmp/dumpob_%d.smt2", ob.ID), []byte(script), 0o644)
+	}
+	if ob.Expect != "sat" && strings.Count(script, "(push 1)") >= 1 {
+		// every conjunct of the goal as a query of its own, in fresh solver processes (an incremental run over
+		// a large quantified context is often slower by orders of magnitude than the sum of the fresh runs)
+		parts := strings.Split(script, "(push 1)")
+		head := parts[0]
+		okAll := true
+		var pmu sync.Mutex
+		var pwg sync.WaitGroup
+		t0 := time.Now()
+		sem := make(chan struct{}, 4)
+		for _, seg := range parts[1:] {
+			body := seg
+			if i := strings.Index(body, "(pop 1)"); i >= 0 {
+				body = body[:i]
+			}
+			pwg.Add(1)
+			go func(q string) {
+				defer pwg.Done()
+				sem <- struct{}{}
+				defer func() { <-sem }()
+				// quantifier instantiation is sensitive to the search order and to the solver: a proof is usually
+				// found within a second or not at all, so short runs of both z3 versions with changing seeds beat
+				// one long run
+				ans := "unknown"
+				first := func(out string) string {
+					for _, l := range strings.Split(out, "\n") {
+						l = strings.TrimSpace(l)
+						if l == "sat" || l == "unsat" || l == "unknown" {
+							return l
+						}
+					}
+					return "unknown"
+				}
+				budgets := []int{2500, 2500, 2500, 2500, slowMs / 2}
+				for attempt, ms := range budgets {
+					qq := q
+					if attempt > 0 {
+						qq = fmt.Sprintf("(set-option :smt.random_seed %d)\n(set-option :sat.random_seed %d)\n", attempt, attempt) + q
+					}
+					res := make(chan string, 2)
+					for _, sv := range solvers[:2] {
+						go func(sv solverSpec) {
+							out, _ := runSolver(sv, qq, ms, time.Duration(ms+3000)*time.Millisecond)
+							res <- first(out)
+						}(sv)
+					}
+					a1 := <-res
+					if a1 != "unsat" {
+						if a2 := <-res; a2 == "unsat" || a1 == "unknown" {
+							a1 = a2
+						}
+					}
+					ans = a1
+					if ans == "unsat" || ans == "sat" {
+						break
+					}
+				}
+				if ans != "unsat" {
+					pmu.Lock()
+					okAll = false
+					pmu.Unlock()
+				}
+			}(head + body)
+		}
+		pwg.Wait()
+		if okAll {
+			mu.Lock()
+			ob.Status, ob.Solver, ob.Secs = "discharged", "z3-new|z3 (conjuncts separately)", time.Since(t0).Seconds()
+			mu.Unlock()
+			return
+		}
+	}
 	type result struct {
 		solver string
 		out    string
